@@ -306,7 +306,6 @@ func textIntactRule(w *World, r *Report, rule string) {
 	r.floor(rule, "hand-overs of the source text", n, 2)
 }
 
-
 // keywordInjectiveRule: the keyword constructor prepends the marker to every name, also to a name that itself
 // begins with the marker (otherwise two different keywords share one representation and print/read merges them).
 func keywordInjectiveRule(w *World, r *Report, rule string) {
